@@ -19,6 +19,10 @@ LEAN_TARGETS = ["Gama.Props.C09"]
 DRIVERS = ["drv_stats"]
 RULE = ("generated noisy networks (2D direction/distance fixed and free, small-dof intersections, levelling, "
         "correlated coordinate clusters) x sigma-act x conf-pr in (0,1) x sigma-apr in {0.1..100} x 4 algorithms; "
+        "plus 60 seed-independent structured networks on the guards of the formulas (exactly diagonal 2x2 blocks with "
+        "q_yy >, <, = q_xx x 4 algorithms; sigma-apr triples 1 / 1000 / 0.001 under gso and svd compared field by field "
+        "with the scaling law) and a 7799-argument grid over the guard boundaries (regenerated formula vs reference "
+        "model vs Python definition at Float); "
         "one evaluation = one reported quantity (accessor value or XML field) recomputed from its inputs; "
         "distinct = (network, quantity index); non-trivial = adjusted network with at least one unknown")
 TRUSTED = [
@@ -37,10 +41,14 @@ MODELLED = [
 ASSUMPTIONS = ["q_xx, q_bb, v'Pv, defect delivered by the solver are those of the least-squares problem (C01-C03)"]
 LEVEL_TEXT = ("Lean 4 theorems over the reals about every statistic formula of LocalNetwork (degrees of freedom, m0 "
               "selection, standard deviations, residual cofactors with their clamp, confidence-coefficient selection, "
-              "error ellipse = eigen-decomposition of the 2x2 cofactor block via the atan2 half angle, invariance "
-              "under sigma-apr); the formulas are regenerated from the C++ text on every run and proved equal to the "
-              "reference model; model executed at Float next to an in-process LocalNetwork; every numeric field of "
-              "the XML result recomputed from the other fields.")
+              "error ellipse = eigen-decomposition of the 2x2 cofactor block via the atan2 half angle with the bearing "
+              "unique unless the eigenvalues coincide, invariance under sigma-apr); every guard / clamp is inside a "
+              "statement about the REGENERATED formula that quantifies over both sides of the guard and over every "
+              "positive scale (no absolute threshold can hide in a guard); the 17 formulas (incl. the XML writer's "
+              "<aposteriori>, <ratio>, <err-obs>/<err-adj>) are regenerated from the C++ text on every run and proved "
+              "equal to the reference model; model executed at Float next to an in-process LocalNetwork; every numeric "
+              "field of the XML result recomputed from the other fields; when a formula changes, the argument where it "
+              "left the reference is found on a grid over the guard boundaries and realised as a network for gama-local.")
 LEVEL_NOTE = ("Not covered by the theorems: the values of the Normal/Student quantiles (C17), IEEE rounding, that the "
               "solver's Q / v'Pv / defect are right (C01-C03). sigma_L of observations in clusters with a non-diagonal "
               "covariance matrix uses the uncorrelated formula in the C++ (theorem _partial; see report).")
